@@ -723,7 +723,11 @@ func (in *Interp) callBuiltin(caller *frame, fn *ssa.Builtin, args []Value) Valu
 				newcap = len(dst.a) + n
 			}
 			out := make([]Value, newcap)
-			copy(out, dst.a)
+			for i := range dst.a {
+				// a new backing array holds COPIES of aggregate elements: writes through
+				// pointers into the old array must not show up in the new one
+				out[i] = copyVal(dst.a[i])
+			}
 			for i := len(dst.a); i < newcap; i++ {
 				out[i] = copyVal(zero)
 			}
